@@ -1,6 +1,7 @@
-(* Gen/AttrWitness.v -- concrete witnesses: (a) every guard used in a C19 theorem is satisfiable on non-trivial inputs,
-   (b) the full-strength statements are FALSE of the faithful model (refutations; each witness is replayed on the real macro
-   by props/C19.py and listed in known_findings.txt). *)
+(* Gen/AttrWitness.v -- concrete instances: the hypotheses of the C19 theorems are satisfiable on non-trivial inputs, and the
+   inputs that used to be known findings (name = "1x", Debug(foo), edit(script()), example(bogus), family edit(def, imp),
+   member edit(script(..))) now get their documented answer.  They are replayed on the real macro by props/C19.py as
+   regression inputs. *)
 From Coq Require Import List String Ascii NArith ZArith Bool.
 Import ListNotations.
 From IT Require Import Gen.Attr Gen.AttrSpec Gen.AttrThm.
@@ -13,64 +14,63 @@ Definition fmany (s : string) := FMany.
 Definition nv k s := MNV [k] (VStr s).
 Definition w p := MPath [p].
 
-(* ---- guards are satisfiable ---- *)
 Definition ex_actor : list meta :=
   [nv "name" "B"; nv "lib" "tokio"; MNV ["channel"] (VInt 2); w "debut"; w "interact"; w "show"; MList ["include"] [w "inc"; w "get"];
    nv "file" "src/main.rs"; MList ["edit"] [MList ["live"] [MList ["imp"] [MList ["file"] [w "inc"]]]]].
-Example ex_actor_guard : existsb k_leaf_item ex_actor = false /\ k_name ex_actor = false. Proof. split; reflexivity. Qed.
-Example ex_actor_valid : valid_actor ftrue fone ex_actor = true /\ is_ok (parse_args ftrue fone Actor ex_actor) = true. Proof. split; vm_compute; reflexivity. Qed.
+Example ex_actor_valid : valid_actor ftrue fone ex_actor = true /\ is_ok (parse_args ftrue fone Actor ex_actor) = true /\ markers ex_actor = true.
+Proof. repeat split; vm_compute; reflexivity. Qed.
 Example ex_actor_two_macros : valid_actor ftrue fmany ex_actor = false /\ is_diag (parse_args ftrue fmany Actor ex_actor) = true. Proof. split; vm_compute; reflexivity. Qed.
 
 Definition ex_family : list meta :=
-  [nv "name" "Z"; MNV ["channel"] (VInt 3); w "Mutex"; w "debut";
-   MList ["actor"] [nv "first_name" "U"; MNV ["channel"] (VInt 0); MList ["include"] [w "inc"]; w "show"];
-   MList ["actor"] [nv "first_name" "V"; w "interact"]].
-Example ex_family_guard : k_leaf ex_family = false /\ k_name ex_family = false. Proof. split; reflexivity. Qed.
+  [nv "name" "Z"; MNV ["channel"] (VInt 3); w "Mutex"; w "debut"; MList ["edit"] [w "def"; MList ["imp"] [w "new"]];
+   MList ["actor"] [nv "first_name" "U"; MNV ["channel"] (VInt 0); MList ["include"] [w "inc"]; w "show"; MList ["edit"] [MList ["script"] [w "def"]]];
+   MList ["actor"] [nv "first_name" "V"; w "interact"; MList ["edit"] [MList ["live"] [MList ["imp"] [w "inc"]]]]].
 Example ex_family_valid : valid_family ftrue fone ex_family = true /\ is_ok (parse_args ftrue fone Family ex_family) = true. Proof. split; vm_compute; reflexivity. Qed.
 Example ex_family_channels :
   match parse_args ftrue fone Family ex_family with Ok c => map (fun p => a_chan (snd p)) (c_members c) | _ => [] end = [Unbounded; Buffer 3].
 Proof. vm_compute. reflexivity. Qed.
 
 Definition ex_example : list meta := [nv "path" "src/main.rs"; w "main"; MList ["expand"] [w "actor"]].
-Example ex_example_guard : k_example ex_example = false. Proof. reflexivity. Qed.
 Example ex_example_valid : valid_example ftrue ex_example = true /\ is_ok (parse_example ftrue ex_example) = true. Proof. split; vm_compute; reflexivity. Qed.
 
-(* ---- refutations of the full-strength statements ---- *)
-(* full: forall mc l, parse_args mc l <> Panic.   FALSE: name = "1x" *)
-Lemma never_panics_refuted : exists l, k_name l = true /\ parse_args ftrue fone Actor l = Panic.
-Proof. exists [nv "name" "1x"]. split; vm_compute; reflexivity. Qed.
-Lemma never_panics_refuted_member : exists l, k_name l = true /\ parse_args ftrue fone Family l = Panic.
-Proof. exists [MList ["actor"] [nv "first_name" "a b"]]. split; vm_compute; reflexivity. Qed.
+(* former finding name-not-ident: a diagnostic, not a panic *)
+Example name_not_ident_diag :
+  is_diag (parse_args ftrue fone Actor [nv "name" "1x"]) = true /\ is_diag (parse_args ftrue fone Family [MList ["actor"] [nv "first_name" "a b"]]) = true.
+Proof. split; vm_compute; reflexivity. Qed.
 
-(* full: forall l, is_ok (parse_args Actor l) = valid_actor l.   FALSE: Debug(foo), include(inc = 1) are accepted *)
-Lemma actor_accept_iff_valid_refuted : exists l, existsb k_leaf_item l = true /\ valid_actor ftrue fone l = false /\ is_ok (parse_args ftrue fone Actor l) = true.
-Proof. exists [MList ["Debug"] [w "foo"]]. repeat split; vm_compute; reflexivity. Qed.
-Lemma actor_filter_leaf_refuted : exists l, existsb k_leaf_item l = true /\ valid_actor ftrue fone l = false /\ is_ok (parse_args ftrue fone Actor l) = true.
-Proof. exists [MList ["include"] [MNV ["inc"] (VInt 1)]]. repeat split; vm_compute; reflexivity. Qed.
-Lemma family_accept_iff_valid_refuted : exists l, k_leaf l = true /\ valid_family ftrue fone l = false /\ is_ok (parse_args ftrue fone Family l) = true.
-Proof. exists [MNV ["Mutex"] (VInt 1); MList ["actor"] [nv "first_name" "U"]]. repeat split; vm_compute; reflexivity. Qed.
-
-(* full: forall l, is_ok (parse_example l) = valid_example l.   FALSE: unknown options / main = 5 are accepted *)
-Lemma example_accept_iff_valid_refuted : exists l, k_example l = true /\ valid_example ftrue l = false /\ is_ok (parse_example ftrue l) = true.
-Proof. exists [nv "path" "src/main.rs"; w "bogus"; MNV ["main"] (VInt 5)]. repeat split; vm_compute; reflexivity. Qed.
-
-(* "no option is silently ignored": FALSE for empty lists inside edit -- the configuration is the one of no `edit` at all *)
-Lemma edit_empty_list_ignored :
-  parse_args ftrue fone Actor [MList ["edit"] [MList ["script"] []]] = parse_args ftrue fone Actor []
-  /\ parse_args ftrue fone Actor [MList ["edit"] []] = parse_args ftrue fone Actor []
-  /\ parse_args ftrue fone Actor [MList ["edit"] [MList ["live"] [MList ["imp"] []]]] = parse_args ftrue fone Actor [].
+(* former finding leaf-not-bare *)
+Example leaf_not_bare_diag :
+  is_diag (parse_args ftrue fone Actor [MList ["Debug"] [w "foo"]]) = true
+  /\ is_diag (parse_args ftrue fone Actor [MList ["include"] [MNV ["inc"] (VInt 1)]]) = true
+  /\ is_diag (parse_args ftrue fone Family [MNV ["Mutex"] (VInt 1); MList ["actor"] [nv "first_name" "U"]]) = true
+  /\ is_diag (parse_args ftrue fone Actor [MList ["edit"] [MList ["live"] [MList ["def"] [w "x"]]]]) = true
+  /\ is_diag (parse_args ftrue fone Actor [MList ["edit"] [MList ["live"] [MList ["imp"] [MNV ["inc"] (VInt 1)]]]]) = true
+  /\ is_diag (parse_args ftrue fone Actor [nv "file" "f"; MList ["edit"] [MList ["live"] [MList ["imp"] [MList ["file"] [MList ["file"] [w "a"]]]]]]) = true.
 Proof. repeat split; vm_compute; reflexivity. Qed.
-(* ... and for the non-bare leaves of edit: `def(x)`, `imp(inc = 1)` mean `def`, `imp(inc)` *)
-Lemma edit_leaf_ignored :
-  parse_args ftrue fone Actor [MList ["edit"] [MList ["live"] [MList ["def"] [w "x"]; MList ["imp"] [MNV ["inc"] (VInt 1)]]]]
-  = parse_args ftrue fone Actor [MList ["edit"] [MList ["live"] [w "def"; MList ["imp"] [w "inc"]]]].
-Proof. vm_compute. reflexivity. Qed.
 
-(* "every valid combination is accepted": FALSE for the documented edit forms of family / family members (F7) *)
-Lemma family_documented_edit_rejected :
-  is_diag (parse_args ftrue fone Family [MList ["edit"] [w "def"; w "imp"]; MList ["actor"] [nv "first_name" "U"]]) = true
-  /\ is_diag (parse_args ftrue fone Family [MList ["actor"] [nv "first_name" "U"; MList ["edit"] [MList ["script"] [w "def"]]]]) = true
-  /\ is_diag (parse_args ftrue fone Family [MList ["actor"] [nv "first_name" "U"; MList ["edit"] [MList ["live"] [MList ["imp"] [w "inc"]]]]]) = true
-  /\ is_diag (parse_args ftrue fone Family [MList ["edit"] [MList ["live"] [w "def"]]; MList ["actor"] [nv "first_name" "U"]]) = true
+(* former finding edit-empty-list *)
+Example edit_empty_list_diag :
+  is_diag (parse_args ftrue fone Actor [MList ["edit"] [MList ["script"] []]]) = true
+  /\ is_diag (parse_args ftrue fone Actor [MList ["edit"] []]) = true
+  /\ is_diag (parse_args ftrue fone Actor [MList ["edit"] [MList ["live"] [MList ["imp"] []]]]) = true
+  /\ is_diag (parse_args ftrue fone Actor [nv "file" "f"; MList ["edit"] [MList ["file"] []]]) = true
+  /\ is_diag (parse_args ftrue fone Family [MList ["edit"] []; MList ["actor"] [nv "first_name" "U"]]) = true
+  /\ is_ok (parse_args ftrue fone Actor [w "edit"]) = true
+  /\ is_ok (parse_args ftrue fone Actor [nv "file" "f"; MList ["edit"] [w "file"]]) = true
+  /\ is_ok (parse_args ftrue fone Actor [MList ["edit"] [w "script"; MList ["live"] [w "imp"]]]) = true.
+Proof. repeat split; vm_compute; reflexivity. Qed.
+
+(* former finding example-unknown-option *)
+Example example_unknown_option_diag :
+  is_diag (parse_example ftrue [nv "path" "src/main.rs"; w "bogus"]) = true
+  /\ is_diag (parse_example ftrue [nv "path" "src/main.rs"; MNV ["main"] (VInt 5)]) = true
+  /\ is_diag (parse_example ftrue [nv "path" "src/main.rs"; MList ["expand"] [MList ["actor"] [w "x"]]]) = true.
+Proof. repeat split; vm_compute; reflexivity. Qed.
+
+(* former finding family-edit-form (F7): the documented forms are accepted *)
+Example family_documented_edit_accepted :
+  is_ok (parse_args ftrue fone Family [MList ["edit"] [w "def"; w "imp"]; MList ["actor"] [nv "first_name" "U"]]) = true
+  /\ is_ok (parse_args ftrue fone Family [MList ["actor"] [nv "first_name" "U"; MList ["edit"] [MList ["script"] [w "def"]]]]) = true
+  /\ is_ok (parse_args ftrue fone Family [MList ["actor"] [nv "first_name" "U"; MList ["edit"] [MList ["live"] [MList ["imp"] [w "inc"]]]]]) = true
   /\ is_ok (parse_args ftrue fone Family [MList ["edit"] [w "def"]; MList ["actor"] [nv "first_name" "U"]]) = true.
 Proof. repeat split; vm_compute; reflexivity. Qed.
